@@ -20,7 +20,7 @@ CONSTANTS
   CfModes = {"plain"}
   DevRebuildMergesAcrossState = FALSE
   DevEncCheckIgnoresStrict = FALSE
-  DevCasefoldOpaqueHashFails = TRUE
+  DevCasefoldOpaqueHashFails = FALSE
   DevDupFoldsPlainDir = FALSE
   DevInodeUninitWipes = FALSE
 POSTCONDITION TraceAccepted
